@@ -67,11 +67,14 @@ func (v *notation_) GetClass() col.NotationClassLike {
 // Canonical
 
 func (v *notation_) FormatValue(value any) (source string) {
-	source = v.formatter_.FormatValue(value)
+	// A notation may be shared by many collections (through their class) so a
+	// separate formatter is used for each call to keep concurrent calls apart.
+	source = Formatter().Make().FormatValue(value)
 	return source
 }
 
 func (v *notation_) ParseSource(source string) (value any) {
-	value = v.parser_.ParseSource(source)
+	// A separate parser is used for each call for the same reason.
+	value = Parser().Make().ParseSource(source)
 	return value
 }
